@@ -371,6 +371,15 @@ class C28(Property):
                 g = wc.get(PurePosixPath(path), kind)
                 q(f"get {kind[0]} {pp(qparts)}", "~" if g is None else (",".join(str(tloc(t)) for t in g["targets"]) or "[]"),
                   f"get({path!r},{kind!r})")
+                # the same with an explicit default: `get` hands it out only when the PATH is unknown (a known node without the
+                # attribute gives None), `propagate` when no node on the path carries the attribute
+                sent = {"targets": [{"locations": 999999}], "filters": []}
+                cfg = wc.propagate(PurePosixPath(path), kind, sent)
+                q(f"propd {kind[0]} {pp(qparts)}", "~" if cfg is None else (",".join(str(tloc(t)) for t in cfg["targets"]) or "[]"),
+                  f"propagate({path!r},{kind!r},default)")
+                g = wc.get(PurePosixPath(path), kind, sent)
+                q(f"getd {kind[0]} {pp(qparts)}", "~" if g is None else (",".join(str(tloc(t)) for t in g["targets"]) or "[]"),
+                  f"get({path!r},{kind!r},default)")
                 ctx.count("query:" + kind)
                 # oracle: nearest bound ancestor, declared order, workdir inheritance
                 sb = spec_binding(bindings, kind, qparts)
